@@ -1036,8 +1036,48 @@ def _mk_case(rng, tier, mode):
     return case
 
 
+def _exhaustive():
+    """small scope, complete: every order of wiring up to three sources to one input / up to three receivers to one
+    signal output, flat and nested, every back end, never run and fully run"""
+    import itertools
+
+    srcs = [["child", "a", "o"], ["child", "b", "o"], ["child", "d", "o"]]
+    kids = [_leafF("a", 1, a=1), _leafF("b", 2, a=2), _leafF("d", 4, a=4), _leafF("c", 3)]
+    seqs = [list(p) for k in (1, 2, 3) for p in itertools.permutations(srcs, k)]
+    for seq in seqs:
+        data = [["c", "a", s] for s in seq]
+        flat = {"kind": "wf", "label": "w", "spec": {"children": kids, "data": data}}
+        nested = {"kind": "wf", "label": "w", "spec": {"children": [
+            {"label": "m", "kind": "M1", "const": {"x": 1}, "spec": {
+                "children": kids, "data": [["a", "b", ["arg", "x"]]] + data, "returns": [["c", "o"]]}}], "data": []}}
+        for be in ("pickle", "cloudpickle", "file"):
+            for st in ("fresh", "run"):
+                yield {"root": flat, "state": st, "backend": be, "rounds": 1, "target": [], "fail": [],
+                       "rerun": ["run"], "rerun_eq_cache": True, "mode": "exhaustive"}
+            yield {"root": nested, "state": "run", "backend": be, "rounds": 2 if be == "file" else 1, "target": [],
+                   "fail": [], "rerun": ["run"], "rerun_eq_cache": True, "mode": "exhaustive"}
+        yield {"root": nested, "state": "run", "backend": "pickle", "rounds": 1, "target": ["m", "c"], "fail": [],
+               "mode": "exhaustive"}
+    recvs = [["b", "run"], ["c", "run"], ["c", "accumulate_and_run"], ["b", "accumulate_and_run"]]
+    kids3 = [_leafF("a", 1, a=1), _leafF("b", 2), _leafF("c", 3)]
+    for k in (1, 2, 3):
+        for seq in itertools.permutations(recvs, k):
+            sig = [["a", "ran", r[0], r[1]] for r in seq]
+            g = {"kind": "wf", "label": "w", "spec": {"auto": False, "children": kids3,
+                                                      "data": [["b", "a", ["child", "a", "o"]], ["c", "a", ["child", "b", "o"]]],
+                                                      "signals": sig, "starting": ["a"]}}
+            for be in ("pickle", "cloudpickle", "file"):
+                yield {"root": g, "state": "fresh", "backend": be, "rounds": 1, "target": [], "fail": [],
+                       "rerun": ["run"], "rerun_eq_cache": True, "mode": "exhaustive"}
+
+
+EXHAUSTIVE = {"quick": False, "thorough": True}
+
+
 def gen_cases(rng, tier):
-    n = 330 if tier == "quick" else 3600
+    n = 600 if tier == "quick" else 9000
+    if tier == "thorough":
+        yield from _exhaustive()
     for k in range(n):
         r = k % 20
         if r < 10:
